@@ -354,8 +354,15 @@ def do_history(case, rec, rng):
                 if prior and rng.random() < 0.5:
                     ft[0] = list(rng.choice(prior))  # exactly the same interval as before
                     ft = [list(x) for x in {tuple(x) for x in ft}]
-                vals = np.array([g_int(k, a, b) for a, b in ft], dtype=float)
-                hole.add_data({name: {"from-to": np.array(ft, dtype=float), "values": vals.copy()}}, **kw)
+                if rng.random() < 0.25:
+                    # a described interval (lithology, remarks): text of different lengths
+                    vals = np.array([f"lith {k}/{i} " + "x" * (i % 4) for i in range(len(ft))])
+                    name = "t" + name
+                    hole.add_data({name: {"from-to": np.array(ft, dtype=float), "values": vals.copy(), "type": "text"}}, **kw)
+                    rec.see("text-interval-logs")
+                else:
+                    vals = np.array([g_int(k, a, b) for a, b in ft], dtype=float)
+                    hole.add_data({name: {"from-to": np.array(ft, dtype=float), "values": vals.copy()}}, **kw)
                 given_int[name] = {tuple(x): v for x, v in zip(ft, vals.tolist())}
                 ops.append(("interval", len(ft)))
             if case["reopen"] and rng.random() < 0.4:
@@ -445,6 +452,17 @@ def judge_hole(rec, hole, collar, rows, given_depth, given_int, tol, where):
                 rec.fail("C18.value", op=where, cls="Drillhole", attr="missing-data", detail=f"interval data {name} disappeared")
                 continue
             vals = dd[0].values
+            is_text = isinstance(vals, np.ndarray) and vals.dtype.kind in "USO"
+            if is_text:
+                vals = np.array([x.decode() if isinstance(x, bytes) else str(x) for x in vals.tolist()] + [""] * max(nc - len(vals), 0), dtype=object)
+                matched = set()
+                for (a, b), v in table.items():
+                    idx = [c for c in range(nc) if abs(fv[c] - a) <= tol + 1e-9 and abs(tv[c] - b) <= tol + 1e-9 and vals[c] == v]
+                    rec.check("C18.value", len(idx) >= 1, op=where, cls="Drillhole", attr="interval-text", detail=f"{name}: text {v!r} given on [{a},{b}] not found on that interval (FROM={fv.tolist()} TO={tv.tolist()} values={vals.tolist()})")
+                    matched |= set(idx[:1])
+                stray = [c for c in range(nc) if c not in matched and vals[c] not in ("", "nan", "None")]
+                rec.check("C18.value", not stray, op=where, cls="Drillhole", attr="stray-text", detail=f"{name}: text on cells {stray[:4]} that was never given there: {vals.tolist()}")
+                continue
             if vals is not None and len(vals) < nc:
                 vals = np.r_[vals, np.full(nc - len(vals), np.nan)]
             if vals is None or len(vals) != nc:
